@@ -40,6 +40,8 @@ def expr_text(e):
         return e[1]
     if t == "drange":
         return f"DiscreteRange({expr_text(e[1])}, {expr_text(e[2])})"
+    if t == "drangeh":  # constant bounds in half units (fractional end points)
+        return f"DiscreteRange({e[1] / 2}, {e[2] / 2})"
     if t == "uniform":
         return "Uniform(" + ", ".join(expr_text(x) for x in e[1]) + ")"
     if t == "discrete":
@@ -123,6 +125,9 @@ def to_prog(ast, max_iter):
         if t == "drange":
             a, b = ev(e[1]), ev(e[2])
             return node("drange", a=[a, b], lo=min(rng_[a][0], rng_[b][1]), hi=max(rng_[b][1], rng_[a][0]))
+        if t == "drangeh":
+            lo, hi = -((-e[1]) // 2), e[2] // 2
+            return node("drange2", c=[e[1], e[2]], lo=min(lo, hi), hi=max(lo, hi))
         if t == "uniform":
             opts = [ev(x) for x in e[1]]
             idx = node("drange", a=[const(0), const(len(opts) - 1)], lo=0, hi=len(opts) - 1)
@@ -140,6 +145,8 @@ def to_prog(ast, max_iter):
             sn = nodes[src - 1]
             if sn["k"] == "drange":
                 return node("drange", a=sn["a"], lo=rng_[src][0], hi=rng_[src][1])
+            if sn["k"] == "drange2":
+                return node("drange2", c=sn["c"], lo=rng_[src][0], hi=rng_[src][1])
             if sn["k"] == "mux":
                 i0 = sn["a"][0]
                 idx = nodes[i0 - 1]
@@ -275,6 +282,8 @@ def to_prog(ast, max_iter):
             lo = rng_[nd["a"][0]][0]
             hi = rng_[nd["a"][1]][1]
             branches *= max(1, hi - lo + 1)
+        elif nd["k"] == "drange2":
+            branches *= max(1, nd["c"][1] // 2 - (-((-nd["c"][0]) // 2)) + 1)
         elif nd["k"] == "wsel":
             branches *= len(nd["c"])
     maxabs = max([abs(v) for n in reach for v in rng_[n]] + [0])
@@ -288,7 +297,7 @@ def to_prog(ast, max_iter):
 
 
 # ----------------------------------------------------------------- random programs
-def random_ast(rng, size, vals=3):
+def random_ast(rng, size, vals=3, half_bounds=False):
     names = []  # names bound to random values
     allnames = []
     ast = []
@@ -312,6 +321,8 @@ def random_ast(rng, size, vals=3):
                 lo = rng.randint(0, vals)
                 hi = lo + rng.randint(0, vals - 1) if rng.random() < 0.93 else lo - 1
                 a, b = ("lit", lo), ("lit", hi)
+                if half_bounds and rng.random() < 0.15:  # fractional end points: ceil / floor
+                    return ("drangeh", 2 * lo - rng.randint(0, 1), 2 * hi + rng.randint(0, 1))
             return ("drange", a, b)
         if kind == "uniform":
             return ("uniform", [operand() for _ in range(rng.randint(2, 3))])
@@ -413,7 +424,7 @@ def generate(seed, count, sizes=(1, 2, 3, 4), max_branches=400, max_abs=60):
     out = []
     dropped = 0
     while len(out) < count:
-        ast = random_ast(rng, rng.choice(sizes))
+        ast = random_ast(rng, rng.choice(sizes), half_bounds=True)
         try:
             prog, info = to_prog(ast, 1)
         except IllFormed:
@@ -437,7 +448,7 @@ def exhaustive_core():
     requirement form, hard and soft."""
     X = ("var", "x")
     Y = ("var", "y")
-    leaves = [("drange", ("lit", 0), ("lit", 1)), ("drange", ("lit", 1), ("lit", 3)),
+    leaves = [("drange", ("lit", 0), ("lit", 1)), ("drange", ("lit", 1), ("lit", 3)), ("drangeh", 1, 5),
               ("discrete", [(("lit", 0), 1), (("lit", 2), 3)])]
     seconds = [
         ("drange", X, ("lit", 3)), ("drange", ("lit", 0), X), ("drange", ("lit", 2), X),
